@@ -1404,6 +1404,8 @@ def compile_match_expression(compiler, expr, root, subject, clauses):
 def compile_pattern(compiler, pattern):
     value, assignment = pattern
     if assignment is not None:
+        if mangle(assignment) == "_":
+            compiler._syntax_error(assignment, "can't use `_` as a capture target")
         return compiler.scope.assign(
             asty.MatchAs(
                 value,
@@ -1457,6 +1459,8 @@ def compile_pattern(compiler, pattern):
 
     elif isinstance(value, Dict):
         kvs, rest = value
+        if rest is not None and mangle(rest) == "_":
+            compiler._syntax_error(rest, "can't use `_` as a capture target")
         keys, values = zip(*kvs) if kvs else ([], [])
         # Call `scope.assign` for the assignment to `rest`.
         return compiler.scope.assign(
